@@ -855,6 +855,10 @@ class PSBT(EmbitBase):
                             raise PSBTError("Global TX must be unsigned")
                         if isinstance(inp.witness, Witness) and len(inp.witness.items) > 0:
                             raise PSBTError("Global TX must be unsigned")
+                    # liquid transactions keep their witnesses (proofs, script and
+                    # peg-in witnesses of inputs and outputs) in other classes
+                    if getattr(tx, "has_witness", False):
+                        raise PSBTError("Global TX must be unsigned")
                 else:
                     raise PSBTError(
                         "Failed to parse PSBT - duplicated transaction field"
